@@ -18,6 +18,8 @@ import (
 	"verif/harness/wire"
 )
 
+var errC10Cause = errors.New("listener shutting down")
+
 func TestC10(t *testing.T) {
 	rec := ev.Get("C10")
 	rec.Rule("per case a synctest bubble (in a third of the cases after two earlier connections of the same process whose NewConn timed out while blocked): hello delivery plan (already buffered, or k chunks arriving at drawn virtual times), context kind (WithCancel / WithTimeout / WithDeadline / cancelled parent), cancellation slot relative to the hello's completion (while blocked, exactly at completion, immediately after NewConn returned, return+epsilon, expiry after return, never), GOMAXPROCS in {1,2,4,8,16}, optional caller deadline on the transport; in the 'while blocked' slot the peer may not be reading, so that a write without a deadline would block forever. After the return the case cancels, calls synctest.Wait() so the watcher goroutine has certainly run, then inspects the transport log and performs I/O, in half of the cases including a HelloRetryRequest round whose retried hello arrives a virtual second later. distinct = (plan, kind, slot, GOMAXPROCS); non-trivial = the context ends within the case")
@@ -50,7 +52,7 @@ func TestC10(t *testing.T) {
 			slots = append(slots, "blocked", "blocked", "at_completion")
 		}
 		slot := slots[uniform(rt, "slot", len(slots))]
-		kind := []string{"cancel", "timeout", "deadline", "parent", "timeout_cancelled_early", "deadline_cancelled_early"}[rapid.IntRange(0, 5).Draw(rt, "kind")]
+		kind := []string{"cancel", "timeout", "deadline", "parent", "timeout_cancelled_early", "deadline_cancelled_early", "cancel_cause", "timeout_cause", "parent_cause"}[rapid.IntRange(0, 8).Draw(rt, "kind")]
 		callerDL := rapid.Bool().Draw(rt, "caller_deadline")
 		eps := time.Duration(rapid.IntRange(1, 1000).Draw(rt, "eps_us")) * time.Microsecond
 		var tc time.Duration // context end time for timer-driven slots
@@ -153,6 +155,18 @@ func TestC10(t *testing.T) {
 					ctx, cancel = context.WithTimeout(context.Background(), tc)
 				case timerDriven && kind == "deadline":
 					ctx, cancel = context.WithDeadline(context.Background(), start.Add(tc))
+				case timerDriven && kind == "timeout_cause":
+					// contexts that end with a cause of the application's own (Go 1.20/1.21 API)
+					ctx, cancel = context.WithTimeoutCause(context.Background(), tc, errC10Cause)
+				case kind == "cancel_cause" || kind == "timeout_cause" || kind == "parent_cause":
+					cctx, ccancel := context.WithCancelCause(context.Background())
+					ctx, cancel = cctx, func() { ccancel(errC10Cause) }
+					if kind == "parent_cause" {
+						ctx, _ = context.WithCancel(cctx)
+					}
+					if timerDriven {
+						go func() { time.Sleep(tc); ccancel(errC10Cause) }()
+					}
 				case kind == "parent":
 					parent, pcancel := context.WithCancel(context.Background())
 					ctx, _ = context.WithCancel(parent)
